@@ -167,3 +167,20 @@ func (j joined) EvalGood(t float64) float64 {
 	}
 	return j[idx]
 }
+
+type vec3 [3]float64
+
+// clean:UNIFORM
+func (v vec3) Sub(v1 vec3) vec3 {
+	return vec3{v[0] - v1[0], v[1] - v1[1], v[2] - v1[2]}
+}
+
+// want:UNIFORM one component uses the wrong operand.
+func (v vec3) SubBad(v1 vec3) vec3 {
+	return vec3{v[0] - v1[0], v[1] - v1[1], v[2] - v1[1]}
+}
+
+// want:UNIFORM one term of the sum has the wrong operator.
+func (v vec3) DotBad(v1 vec3) float64 {
+	return v[0]*v1[0] + v[1]*v1[1] + v[2]+v1[2]
+}
